@@ -72,7 +72,7 @@ impl Obs for Nop {}
 /// The actions of the generated game; the root is the state they reach (so it has a history).
 fn root_actions(c: &ConcCase) -> Option<Vec<Action>> {
     let mut st = Stats::default();
-    let (_end, trace) = drive::run_case(&c.game, &WalkOpts { profile: c.profile, expand: None, follow_norep: false, inject: arimaa_verif::drive::Inject::No, interfere: false }, &mut Nop, &mut st).ok()?;
+    let (_end, trace) = drive::run_case(&c.game, &WalkOpts { profile: c.profile, expand: None, follow_norep: false, inject: arimaa_verif::drive::Inject::No, interfere: false, play_on: false }, &mut Nop, &mut st).ok()?;
     // a finished game has nothing to expand: step back to the last state without a result
     let mut actions = trace.actions;
     loop {
